@@ -11,7 +11,7 @@ that the final state is the initial one extended by a list of such emissions.  P
 of Props/C05 are read off that list.  Further sections: `pack` unfolded once (`pk_pack_eq`), the
 walk only appends (`pk_walk_grows`), metadata accounting, where `stop illegal` comes from and how
 a `stop` travels up, independence of the working directory and of the spelling of the source
-(Props/C16), fuel of `resolveExternalLink` (Props/C19p).
+(Props/C16), the hop bound of `resolveExternalLink` (Props/C19p).
 -/
 namespace Slug
 
@@ -795,21 +795,33 @@ theorem pk_pack_stop (fs : FS) (cwd : Str) (o : PackOpts) (src : Str) (info n : 
   rw [pk_pack_eq]; simp [hi, hn, h, pkFinish]
 /-! ## where an illegal-slug result comes from -/
 
-theorem pk_resolveExternalLink_err (fs : FS) : ∀ (fuel : Nat) (path : Str) (r : PResult),
-    resolveExternalLink fs fuel path = .error r → r = .ioerr ∨ r = .diverged := by
+/-- every failure of `resolveExternalLink` is an I/O error (a failed `Readlink`/`Lstat`, or "too
+many levels of symbolic links" when the hop bound is reached) -/
+theorem pk_resolveExternalLink_err_ioerr (fs : FS) : ∀ (fuel : Nat) (path : Str) (r : PResult),
+    resolveExternalLink fs fuel path = .error r → r = .ioerr := by
   intro fuel
   induction fuel with
-  | zero => intro path r h; simp [resolveExternalLink] at h; exact Or.inr h.symm
+  | zero => intro path r h; simp [resolveExternalLink] at h; exact h.symm
   | succ fuel ih =>
     intro path r h
     rw [resolveExternalLink] at h
     split at h
-    · cases h; exact Or.inl rfl
+    · cases h; rfl
     · simp only at h
       split at h
-      · cases h; exact Or.inl rfl
+      · cases h; rfl
       · exact ih _ _ h
       · cases h
+
+theorem pk_resolveExternalLink_err (fs : FS) (fuel : Nat) (path : Str) (r : PResult)
+    (h : resolveExternalLink fs fuel path = .error r) : r = .ioerr ∨ r = .diverged :=
+  Or.inl (pk_resolveExternalLink_err_ioerr fs fuel path r h)
+
+/-- `resolveExternalLink` never reports `diverged`: the chain it follows is bounded -/
+theorem pk_resolveExternalLink_never_diverges (fs : FS) (n : Nat) (path : Str) :
+    resolveExternalLink fs n path ≠ .error .diverged := by
+  intro h
+  cases pk_resolveExternalLink_err_ioerr fs n path _ h
 
 /-- the only source of the illegal-slug result: dereferencing is off and some symlink on disk
 failed `validSymlink` -/
@@ -1351,7 +1363,7 @@ theorem pk_pack_spelling_rel (fs : FS) (cwd : Str) (o : PackOpts) (rel : Str)
     rw [hs1, hs2, pk_pathAbs_pathJoin_rel cwd rel _ hcwd hrel (by decide) (by decide),
       pathAbs_absClean cwd (pathJoin (pathAbs cwd rel) _) (pathJoin_absClean _ _ hac.1)]
   rw [pk_pack_eq, pk_pack_eq, hi1, hi2, hr, hrules]
-/-! ## fuel of `resolveExternalLink` -/
+/-! ## the hop bound of `resolveExternalLink` -/
 
 /-- the chain of symlinks starting at `path` ends within `n` `Readlink` steps: at something that
 is not a link, at a dangling target, or because `path` is not a link in the first place -/
@@ -1401,4 +1413,31 @@ theorem pk_resolveExternalLink_ends (fs : FS) : ∀ (n : Nat) (path : Str), pkCh
           rw [hl] at h
           exact (ih _ h).2 m' (by omega)
         · rfl
+
+/-- a chain that does not end within `n` steps exhausts the hop bound `n`: "too many levels of
+symbolic links" -/
+theorem pk_resolveExternalLink_too_long (fs : FS) : ∀ (n : Nat) (path : Str), pkChainEnds fs n path = false →
+    resolveExternalLink fs n path = .error .ioerr := by
+  intro n
+  induction n with
+  | zero => intro path _; rfl
+  | succ n ih =>
+    intro path h
+    rw [pkChainEnds] at h
+    rw [resolveExternalLink]
+    split
+    · rfl
+    · rename_i target ht
+      rw [ht] at h
+      simp only at h ⊢
+      split
+      · rfl
+      · rename_i t hl
+        rw [hl] at h
+        exact ih _ h
+      · rename_i m hnl hm
+        rw [hm] at h
+        cases m with
+        | link t => exact absurd rfl (hnl t)
+        | _ => simp at h
 end Slug
